@@ -13,20 +13,27 @@ is `Model/Pipeline.lean`, instantiated with a state monad carrying the log and t
 -/
 open Viv Viv.Proto Viv.Pipeline
 
-/-- what a call can see besides its arguments: the probe log and the clock -/
-structure Env where
-  log : List String := []
-  steps : Steps := ⟨0, fun _ => 0⟩
-
-abbrev Logged := StateM Env
-
-def tell (tag : String) : Logged Unit := modify fun e => { e with log := e.log ++ [tag] }
-
 inductive Val
   | item (i : Item)
   | list (xs : List Val)
   | raised (cls : String)   -- the framework code raised (post-processing a value it cannot handle)
   | bad
+
+/-- what a call can see besides its arguments: the probe log, the clock, and the Python list objects
+that "shared-list" sources hand out again and again (`list_combiner` appends to them IN PLACE) -/
+structure Env where
+  log : List String := []
+  steps : Steps := ⟨0, fun _ => 0⟩
+  /-- current content of the list object owned by the source of a pipeline -/
+  shared : List (String × List Val) := []
+  /-- the pipeline whose shared list was handed out in this call -/
+  touched : Option String := none
+  /-- the list as the last `list_combiner` step left it -/
+  lastList : Option (List Val) := none
+
+abbrev Logged := StateM Env
+
+def tell (tag : String) : Logged Unit := modify fun e => { e with log := e.log ++ [tag] }
 
 /-- the caller's arguments: an optional index and a number -/
 structure Args where
@@ -41,6 +48,7 @@ inductive Eff
   | fgen (b c d : Rat) (k : Nat)   -- args ↦ DataFrame over the index, column j: (b + j/4) + c·i + d·a
   | lfgen (b c d : Rat) (k : Nat)  -- args ↦ [that]
   | agen (b c d : Rat)     -- args ↦ numpy array over the index (no labels): b + c·i + d·a
+  | cmark (t : Rat)        -- args ↦ the number t (a list modifier that ignores the index)
   | aff (p q r s : Rat)    -- (args, v) ↦ p·v + q + r·i + s·a
   | sq                     -- (args, v) ↦ v·v
   | app (t : Rat)          -- (args, v) ↦ v ++ [t]
@@ -69,6 +77,7 @@ def Eff.run (e : Eff) (args : Args) (prev : Option Val) : Val :=
   | .gen b c d, none => .item (genItem b c d args)
   | .lgen b c d, none => .list [.item (genItem b c d args)]
   | .mark t, none => .list [.item (.sc t)]
+  | .cmark t, none => .item (.sc t)
   | .aff p q _ s, some (.item (.sc x)) => .item (.sc (p * x + q + s * args.a))
   | .aff p q r s, some (.item (.se v)) => .item (.se (v.map fun (i, x) => (i, p * x + q + r * (i : Rat) + s * args.a)))
   | .sq, some (.item (.sc x)) => .item (.sc (x * x))
@@ -90,8 +99,20 @@ def replaceD : Val → Mut → Args → Logged Val :=
 /-- `list_combiner` on probes: `value.append(mutator(*args))` (a non-list value has no `append`) -/
 def listD : Val → Mut → Args → Logged Val := fun v mu a =>
   match v with
-  | .list xs => Val.list <$> listCombiner xs (fun a => mu a none) a
+  | .list xs => do
+    let ys ← listCombiner xs (fun a => mu a none) a
+    modify fun e => { e with lastList := some ys }      -- `value.append(…)`: the list object itself has grown
+    pure (.list ys)
   | _ => pure .bad
+
+/-- a source that owns ONE Python list and returns that same object on every call (`smark:t`: initially
+`[t]`). Whatever `list_combiner` appended in earlier calls is still in it. -/
+def sharedSource (pipe : String) (t : Rat) : Args → Logged Val := fun _ => do
+  tell "src"
+  let e ← get
+  let cur := (e.shared.lookup pipe).getD [.item (.sc t)]
+  set { e with touched := some pipe, lastList := some cur }
+  pure (.list cur)
 
 def items? : List Val → Option (List Item)
   | [] => some []
@@ -126,6 +147,7 @@ def eff? (s : String) : Option Eff :=
   | ["gen", b, c, d] => do pure (.gen (← rat? b) (← rat? c) (← rat? d))
   | ["lgen", b, c, d] => do pure (.lgen (← rat? b) (← rat? c) (← rat? d))
   | ["mark", t] => do pure (.mark (← rat? t))
+  | ["cmark", t] => do pure (.cmark (← rat? t))
   | ["fgen", b, c, d, k] => do pure (.fgen (← rat? b) (← rat? c) (← rat? d) (← k.toNat?))
   | ["lfgen", b, c, d, k] => do pure (.lfgen (← rat? b) (← rat? c) (← rat? d) (← k.toNat?))
   | ["agen", b, c, d] => do pure (.agen (← rat? b) (← rat? c) (← rat? d))
@@ -160,6 +182,8 @@ structure St where
   steps : Steps := ⟨0, fun _ => 0⟩
   /-- pipelines whose source is another pipeline (`source = builder.value.get_value(other)`) -/
   refs : List (String × String) := []
+  /-- content of the list objects owned by shared-list sources, carried from call to call -/
+  shared : List (String × List Val) := []
 
 /-- `Pipeline.__call__` where the source may be another `Pipeline` object: Python evaluates the inner
 pipeline (same arguments, post-processor NOT skipped) when the source is invoked; an inner pipeline
@@ -207,6 +231,14 @@ def step (s : St) : List String → St × String
         | .error .dupSource => (s, "err dup")
         | .error .noSource => (s, "err other")
       | _, _ => (s, "bad-op")
+    else if eff.startsWith "smark:" then
+      match rat? (eff.drop 6).toString, combiner?, post? with
+      | some t, some c, some p =>
+        match s.mgr.registerProducer pipe { source := sharedSource pipe t, combiner := c, post := p } with
+        | .ok g => ({ s with mgr := g }, "ok")
+        | .error .dupSource => (s, "err dup")
+        | .error .noSource => (s, "err other")
+      | _, _, _ => (s, "bad-op")
     else
     match eff? eff, combiner?, post? with
     | some e, some c, some p =>
@@ -229,11 +261,15 @@ def step (s : St) : List String → St × String
       | .error .noSource => (s, "err nosource")
       | .error .dupSource => (s, "err other")
       | .ok run =>
-        let (v, env) := (run.run { steps := s.steps }).run
-        if isBad v then (s, "bad-op")
+        let (v, env) := (run.run { steps := s.steps, shared := s.shared }).run
+        -- the shared list object keeps what this call appended to it
+        let s' := match env.touched, env.lastList with
+          | some k, some l => { s with shared := (k, l) :: s.shared.filter (·.1 != k) }
+          | _, _ => s
+        if isBad v then (s', "bad-op")
         else match v with
-          | .raised c => (s, s!"err raised:{c} {showStrs env.log}")
-          | _ => (s, s!"ok {showVal v} {showStrs env.log}")
+          | .raised c => (s', s!"err raised:{c} {showStrs env.log}")
+          | _ => (s', s!"ok {showVal v} {showStrs env.log}")
     | _, _, _ => (s, "bad-op")
   | _ => (s, "bad-op")
 
